@@ -32,6 +32,7 @@ type scen struct {
 	Pace     string   `json:"pace"`     // "paced" (wait for the reader), "gap" (fixed gap), "burst"
 	ReadBuf  int      `json:"readbuf"`  // application read buffer size
 	ReadWait int      `json:"readwait"` // ms the reader stays idle before reading
+	GapMs    int      `json:"gapms"`    // gap between frames for pace "gap" (default 25)
 	Foreign  bool     `json:"foreign"`  // interleave frames for other callsigns / ports
 	Malform  string   `json:"malform"`
 	Reply    string   `json:"reply"` // connect reply: ok, refuse, precondition
@@ -183,6 +184,10 @@ func runScenario(sc scen, rng *rand.Rand) []rec.Event {
 				pieces = append(pieces, Frame{Port: sc.Port, Kind: 'D', PID: 0xf0, From: "LA9OTH", To: "LA8ELS", Data: []byte("FOREIGN-CALLS")}.Encode())
 				pieces = append(pieces, Frame{Port: sc.Port + 1, Kind: 'D', PID: 0xf0, From: sc.Target, To: sc.MyCall, Data: []byte("FOREIGN-PORT")}.Encode())
 				pieces = append(pieces, Frame{Port: sc.Port, Kind: 'U', PID: 0xf0, From: sc.Target, To: sc.MyCall, Data: []byte("UNPROTO")}.Encode())
+				// stations whose callsigns extend, or are a prefix of, the peer's and our own
+				pieces = append(pieces, Frame{Port: sc.Port, Kind: 'D', PID: 0xf0, From: sc.Target + "1", To: sc.MyCall, Data: []byte("FOREIGN-LONGER-PEER")}.Encode())
+				pieces = append(pieces, Frame{Port: sc.Port, Kind: 'D', PID: 0xf0, From: strings.SplitN(sc.Target, "-", 2)[0][:len(strings.SplitN(sc.Target, "-", 2)[0])-1], To: sc.MyCall, Data: []byte("FOREIGN-SHORTER-PEER")}.Encode())
+				pieces = append(pieces, Frame{Port: sc.Port, Kind: 'D', PID: 0xf0, From: sc.Target, To: sc.MyCall + "-1", Data: []byte("FOREIGN-LONGER-TO")}.Encode())
 			}
 			pieces = append(pieces, Frame{Port: sc.Port, Kind: 'D', PID: 0xf0, From: sc.Target, To: sc.MyCall, Data: p}.Encode())
 		}
@@ -218,14 +223,18 @@ func runScenario(sc scen, rng *rand.Rand) []rec.Event {
 		case "gap": // a fixed gap between frames, not waiting for the reader
 			for _, p := range pieces {
 				sim.SendSegments(p, sc.Segs, 0)
-				time.Sleep(25 * time.Millisecond)
+				gap := sc.GapMs
+				if gap == 0 {
+					gap = 25
+				}
+				time.Sleep(time.Duration(gap) * time.Millisecond)
 			}
 		default: // paced: one frame at a time (segmented as planned), the next one only when the reader has caught up
 			sentPayload := 0
 			for _, p := range pieces {
 				sim.SendSegments(p, sc.Segs, 8*time.Millisecond)
 				f, _ := readFrame(bytes.NewReader(p))
-				if f.Kind == 'D' && f.From == sc.Target && f.Port == sc.Port {
+				if f.Kind == 'D' && f.From == sc.Target && f.To == sc.MyCall && f.Port == sc.Port {
 					sentPayload += len(f.Data)
 				}
 				time.Sleep(12 * time.Millisecond) // one frame at a time: the demux pipeline is never asked to hold two
@@ -357,11 +366,20 @@ func runMalformed(kind string) int {
 		return 2
 	}
 	defer sim.Close()
+	if strings.HasPrefix(kind, "short-reply:") {
+		// the TNC's reply to a request (registration, capabilities, connect, outstanding frames) has a truncated data field
+		var k byte
+		var n int
+		fmt.Sscanf(kind, "short-reply:%c:%d", &k, &n)
+		sim.ShortReply = map[byte]int{k: n}
+	}
 	tp, err := agwpe.OpenPortTCP(sim.Addr(), 0, "LA1AAA")
 	if err != nil {
 		return 3
 	}
-	conn, err := tp.DialContext(context.Background(), "LA2BBB")
+	dctx, cancel := context.WithTimeout(context.Background(), 3*time.Second)
+	defer cancel()
+	conn, err := tp.DialContext(dctx, "LA2BBB")
 	if err != nil {
 		return 3
 	}
@@ -475,6 +493,10 @@ func Main(args []string) int {
 	mk(func(s *scen) { s.Kind = "inbound"; s.Frames = []int{50, 50}; s.ReadBuf = 1 })
 	mk(func(s *scen) { s.Kind = "inbound"; s.Port = 2; s.Frames = []int{33, 44}; s.Segs = []int{13} })
 	mk(func(s *scen) { s.Kind = "inbound"; s.Frames = []int{8, 8, 8, 8, 8, 8}; s.Pace = "gap" })
+	// a slow reader: three frames, 60 ms apart, wait in the demux pipeline until the application reads
+	mk(func(s *scen) { s.Kind = "inbound"; s.Frames = []int{12, 8, 4}; s.Pace = "gap"; s.GapMs = 60; s.ReadWait = 500 })
+	mk(func(s *scen) { s.Kind = "inbound"; s.Frames = []int{30, 30, 30}; s.Pace = "gap"; s.GapMs = 60; s.ReadWait = 500; s.ReadBuf = 7 })
+	mk(func(s *scen) { s.Kind = "inbound"; s.Target = "LA2BBB"; s.Frames = []int{10, 20, 30}; s.Foreign = true })
 	// accept path
 	mk(func(s *scen) { s.Kind = "accept"; s.Frames = []int{12, 120} })
 	mk(func(s *scen) { s.Kind = "accept"; s.Frames = []int{12, 120}; s.Foreign = true; s.Segs = []int{30, 6} })
@@ -571,6 +593,7 @@ func Main(args []string) int {
 	// malformed input from the TNC: each in its own process
 	self, _ := os.Executable()
 	for _, k := range []string{"short-header-close", "datalen-too-big-close", "huge-datalen", "unknown-kinds", "garbage", "bad-replies",
+		"short-reply:g:0", "short-reply:g:3", "short-reply:g:6", "short-reply:X:0", "short-reply:R:0", "short-reply:Y:0", "short-reply:Y:2", "short-reply:C:0",
 		"connect-during-close", "connect-during-close", "connect-during-close"} {
 		cmd := exec.Command(self, "agwpe", "--child", k)
 		cmd.Env = append(os.Environ(), "GOMEMLIMIT=2GiB")
